@@ -394,9 +394,11 @@ def extend(g, api):
     connrs = 'quinn-proto/src/connection/mod.rs'
     def probe_clamp():
         body = api.strip_comments(api.fn_body(api.read(connrs), 'poll_transmit'))
-        pat = (r'let next_datagram_size_limit = match self\.spaces\[space_id\]\.loss_probes \{\s*0 => segment_size,\s*_ => \{\s*'
+        pat = (r'let probe_may_follow = spaces\[space_idx \+ 1\.\.\]\s*\.iter\(\)\s*\.any\(\|&id\| self\.spaces\[id\]\.loss_probes != 0\);\s*'
+               r'let next_datagram_size_limit = match self\.spaces\[space_id\]\.loss_probes \{\s*0 if !probe_may_follow => segment_size,\s*'
+               r'0 => cmp::min\(segment_size, usize::from\(INITIAL_MTU\)\),\s*_ => \{\s*'
                r'self\.spaces\[space_id\]\.loss_probes -= 1;\s*cmp::min\(segment_size, usize::from\(INITIAL_MTU\)\)\s*\}\s*\};\s*buf_capacity \+= next_datagram_size_limit;')
         if not re.search(pat, body, re.S):
             raise Exception('poll_transmit: loss-probe size clamp shape changed')
         return 1
-    g.nat('lossProbeClampShapeChecked', f'{connrs}::Connection::poll_transmit `next_datagram_size_limit` (a datagram started for a loss probe is limited to min(segment_size, INITIAL_MTU) whatever the packet space; modelled in Conn/Sizing.lean)', probe_clamp)
+    g.nat('lossProbeClampShapeChecked', f'{connrs}::Connection::poll_transmit `next_datagram_size_limit` (a datagram started for a loss probe, or while a later packet number space holds a loss-probe credit that may be coalesced into it, is limited to min(segment_size, INITIAL_MTU) whatever the packet space; modelled in Conn/Sizing.lean)', probe_clamp)
